@@ -43,6 +43,9 @@ def sizes(D: int, min_size: int = 1, max_size: int = 64):
 def spacings(D: int, lo: float = 0.05, hi: float = 20.0):
     iso = logfloat(lo, hi).map(lambda s: [s] * D)
     aniso = st.lists(logfloat(lo, hi), min_size=D, max_size=D)
+    if lo <= 1.0 <= hi:
+        unit = st.just([1.0] * D)  # special value: unit spacing (identity linear part together with an identity direction)
+        return st.one_of(iso, aniso, aniso.map(list), unit)
     return st.one_of(iso, aniso, aniso)
 
 
